@@ -146,6 +146,12 @@ fn main() {
             };
             std::process::exit(code);
         }
+        "crash-child" => {
+            let prop = pos.first().cloned().unwrap_or_else(|| usage());
+            let name = only.clone().unwrap_or_else(|| usage());
+            let e = reg.iter().find(|e| e.scn.property() == prop && e.scn.name() == name).unwrap_or_else(|| usage());
+            std::process::exit(crash_child(e.scn, seed, tier, offset, stride, runs.unwrap_or(1)));
+        }
         "one" => {
             // vh one <Cxx> --scenario name --offset <run> [-v]: execute one run index, print outcome
             let prop = pos.first().cloned().unwrap_or_else(|| usage());
